@@ -5,7 +5,6 @@ import (
 	"context"
 	"database/sql"
 	"encoding/json"
-	"errors"
 	"fmt"
 	"io"
 	"log/slog"
@@ -43,8 +42,6 @@ type inflightGet struct {
 	done chan struct{}
 	err  error
 }
-
-var errObjectLargerThanCacheThreshold = errors.New("object larger than cache threshold")
 
 var _ storage.Storage = (*objectCacheStorageMiddleware)(nil)
 var _ storage.TransactionalStorage = (*objectCacheStorageMiddleware)(nil)
@@ -345,43 +342,38 @@ func (m *objectCacheStorageMiddleware) DeleteObjectTagging(ctx context.Context, 
 func (m *objectCacheStorageMiddleware) PutObject(ctx context.Context, bucketName storage.BucketName, key storage.ObjectKey, contentType *string, data io.Reader, checksumInput *storage.ChecksumInput, opts *storage.PutObjectOptions) (*storage.PutObjectResult, error) {
 	objKey := objectCacheKey(bucketName, key)
 	headKey := headCacheKey(bucketName, key)
-	pr, pw := io.Pipe()
-	cacheWriteDone := make(chan struct{})
-	go func() {
-		defer close(cacheWriteDone)
-		setErr := m.cache.Set(objKey, pr, -1)
-		if setErr != nil {
-			if !errors.Is(setErr, errObjectLargerThanCacheThreshold) {
-				slog.DebugContext(ctx, "Failed to stream object body into cache on put", "key", objKey, "error", setErr)
-			}
-			_ = m.cache.Remove(objKey)
-		}
-	}()
-
+	// The body is kept aside while the inner storage consumes it and only
+	// handed to the cache once the write has succeeded. Writing it to the cache
+	// key right away would let concurrent reads see the bytes of a write that
+	// is not committed yet (or never will be).
 	teedReader := &cacheOnWriteReader{
 		Reader:             data,
-		pipeWriter:         pw,
 		maxObjectSizeBytes: m.maxObjectSizeBytes,
+		cacheEligible:      true,
 	}
 
 	result, err := m.Next.PutObject(ctx, bucketName, key, contentType, teedReader, checksumInput, opts)
 	if err != nil {
-		_ = teedReader.closeWithError(err)
-		<-cacheWriteDone
 		m.invalidateObjectCaches(ctx, bucketName, key)
 		return nil, err
 	}
-	_ = teedReader.close()
-	<-cacheWriteDone
+	m.invalidateObjectCaches(ctx, bucketName, key)
 
 	obj, headErr := m.Next.HeadObject(ctx, bucketName, key, nil)
-	if headErr == nil {
-		if writeErr := m.writeHeadToCache(ctx, headKey, obj); writeErr != nil {
-			slog.DebugContext(ctx, "Failed to write head cache on put", "key", headKey, "error", writeErr)
-		}
-	} else {
+	if headErr != nil {
 		slog.DebugContext(ctx, "Failed to head object on put for cache metadata", "key", headKey, "error", headErr)
-		_ = m.cache.Remove(headKey)
+		return result, nil
+	}
+	// The object may already have been replaced by another write; the body is
+	// only cached if it belongs to the metadata that is cached with it.
+	if teedReader.cacheEligible && result.ETag != nil && obj.ETag == *result.ETag && obj.Size == int64(len(teedReader.data)) {
+		if setErr := m.cache.Set(objKey, bytes.NewReader(teedReader.data), int64(len(teedReader.data))); setErr != nil {
+			slog.DebugContext(ctx, "Failed to write object body into cache on put", "key", objKey, "error", setErr)
+			_ = m.cache.Remove(objKey)
+		}
+	}
+	if writeErr := m.writeHeadToCache(ctx, headKey, obj); writeErr != nil {
+		slog.DebugContext(ctx, "Failed to write head cache on put", "key", headKey, "error", writeErr)
 	}
 
 	return result, nil
@@ -389,68 +381,22 @@ func (m *objectCacheStorageMiddleware) PutObject(ctx context.Context, bucketName
 
 type cacheOnWriteReader struct {
 	io.Reader
-	pipeWriter         *io.PipeWriter
 	maxObjectSizeBytes int64
-	bytesSeen          int64
-	cachePipeActive    bool
+	cacheEligible      bool
+	data               []byte
 }
 
 func (r *cacheOnWriteReader) Read(p []byte) (int, error) {
 	n, err := r.Reader.Read(p)
-	if n > 0 {
-		if !r.cachePipeActive {
-			r.cachePipeActive = true
-		}
-		r.bytesSeen += int64(n)
-		if r.bytesSeen > r.maxObjectSizeBytes {
-			// The writer is already gone after the first read that crossed the
-			// threshold; every later read of a large body comes through here again.
-			if r.pipeWriter != nil {
-				_ = r.pipeWriter.CloseWithError(errObjectLargerThanCacheThreshold)
-				r.pipeWriter = nil
-			}
-			r.cachePipeActive = false
-		} else if r.pipeWriter != nil {
-			if _, writeErr := r.pipeWriter.Write(p[:n]); writeErr != nil {
-				_ = r.pipeWriter.CloseWithError(writeErr)
-				r.pipeWriter = nil
-				r.cachePipeActive = false
-			}
-		}
-	}
-
-	if err == io.EOF {
-		if r.pipeWriter != nil {
-			_ = r.pipeWriter.Close()
-			r.pipeWriter = nil
-			r.cachePipeActive = false
-		}
-	} else if err != nil {
-		if r.pipeWriter != nil {
-			_ = r.pipeWriter.CloseWithError(err)
-			r.pipeWriter = nil
-			r.cachePipeActive = false
+	if n > 0 && r.cacheEligible {
+		if int64(len(r.data)+n) <= r.maxObjectSizeBytes {
+			r.data = append(r.data, p[:n]...)
+		} else {
+			r.cacheEligible = false
+			r.data = nil
 		}
 	}
 	return n, err
-}
-
-func (r *cacheOnWriteReader) close() error {
-	if r.pipeWriter != nil {
-		_ = r.pipeWriter.Close()
-		r.pipeWriter = nil
-		r.cachePipeActive = false
-	}
-	return nil
-}
-
-func (r *cacheOnWriteReader) closeWithError(err error) error {
-	if r.pipeWriter != nil {
-		_ = r.pipeWriter.CloseWithError(err)
-		r.pipeWriter = nil
-		r.cachePipeActive = false
-	}
-	return nil
 }
 
 func (m *objectCacheStorageMiddleware) AppendObject(ctx context.Context, bucketName storage.BucketName, key storage.ObjectKey, data io.Reader, checksumInput *storage.ChecksumInput, opts *storage.AppendObjectOptions) (*storage.AppendObjectResult, error) {
